@@ -23,6 +23,8 @@ const (
 	BiasRestartApplied0
 	BiasBatchedConf
 	BiasSlowApplier
+	BiasLostVote
+	BiasPendingReady
 	numBias
 )
 
@@ -32,6 +34,7 @@ var BiasNames = [numBias]string{
 	"stale_candidate_longer_older_log", "removed_node_campaigns",
 	"joint_disjoint_majorities", "snapshot_vs_appends", "restart_applied0",
 	"batched_conf_changes_disjoint_majorities", "slow_applier_campaigns_during_membership_change",
+	"vote_lost_in_power_failure", "append_conflicting_inside_a_pending_ready",
 }
 
 // SchedConfig is everything that determines one schedule. It is a pure
@@ -149,6 +152,24 @@ func DeriveConfig(seed int64, idx, events int) SchedConfig {
 		c.CheckQuorum = false
 		c.PreVote = false
 		c.MaxSizePerMsg = 64
+	case BiasLostVote:
+		if !lateOK {
+			c.BiasAt = early
+		}
+		// a voter learns the term of an election before it is asked for its vote: needs pre-vote and no lease
+		c.Voters = 3
+		c.Learner = false
+		c.CheckQuorum = false
+		c.PreVote = true
+	case BiasPendingReady:
+		if !lateOK {
+			c.BiasAt = early
+		}
+		c.Voters = 5
+		c.Learner = false
+		c.CheckQuorum = false
+		c.MaxSizePerMsg = 1 << 20
+		c.MaxUncommitted = 0
 	case BiasSnapshotRace, BiasRestartApplied0:
 		if c.Voters < 2 {
 			c.Voters = 3
